@@ -299,6 +299,17 @@ def run_shard(shard_prop, bins, workdir, tier):
             cases.append((cid, 'default', ops))
             expect[cid] = ({4: ('deep-3000', True, None), 5: ('deep-3000-vs-2999', False, None), 6: ('deep-3000-vs-elder', False, None)}, Node('z'), 1)
             cid += 1
+        # breadth: more children than either limit allows levels; permuted wide objects
+        N, M = 12000, 2500
+        wa = 'a%d;' % N + ''.join('n%016x,%d;' % (d2b(float(i % 97)), i % 97) for i in range(N))
+        wb = 'a%d;' % N + ''.join('n%016x,%d;' % (d2b(float(i % 97 if i != N - 1 else 5000)), i % 97 if i != N - 1 else 5000) for i in range(N))
+        mo = ['k%s;n%016x,%d;' % ((b'm%d' % i).hex(), d2b(float(i % 89)), i % 89) for i in range(M)]
+        ops = ['build 1 ' + wa, 'build 2 ' + wa, 'build 3 ' + wb, 'cmpx 1 2 1', 'cmpx 1 3 1', 'del 1', 'del 2', 'del 3',
+               'build 1 o%d;' % M + ''.join(mo), 'build 2 o%d;' % M + ''.join(reversed(mo)), 'build 3 o%d;' % (M - 1) + ''.join(mo[:-1]), 'cmpx 1 2 1', 'cmpx 1 2 0', 'cmpx 1 3 1', 'cmpx 3 1 0', 'del 1', 'del 2', 'del 3']
+        cases.append((cid, 'default', ops))
+        expect[cid] = ({3: ('wide-array-equal', True, None), 4: ('wide-array-last-differs', False, None), 11: ('wide-object-permuted', True, None), 12: ('wide-object-permuted-ci', True, None),
+                        13: ('wide-object-superset', False, None), 14: ('wide-object-subset-ci', False, None)}, Node('z'), 1)
+        cid += 1
         count = 0
     for i in range(count):
         cs = rng.randrange(2)
